@@ -1,0 +1,87 @@
+//go:build verif
+
+// Contracts for the deductive verification harness in /verif (govc).
+// This file contains comments only; it is compiled only with -tags verif
+// and then contributes nothing to the package.
+//
+// Clause syntax: Gobra-style //@ lines keyed by function; expressions are Go
+// expressions extended with ==>, old(), and the specification functions of
+// /verif/spec/*.smt2 (appU/appV/appB: the pinned LEB128 / zig-zag /
+// length-prefixed wire format; wstream[w]: bytes written to writer w so far).
+
+package encoding
+
+// Global invariant established by the package's init function (verified
+// below) and never disturbed afterwards: nothing else assigns hashLenBz or
+// writes through it.
+//@ axiom [hashLenBz] isUvarintContent(ord(hashLenBz), len(hashLenBz), 32)
+
+//@ func init#1()
+//@   props C13
+//@   ensures [hashLenBz] isUvarintContent(ord(hashLenBz), len(hashLenBz), 32)
+//@   modifies comp:GV_github_com_cosmos_iavl_internal_encoding_hashLenBz
+
+//@ func fVarintEncode(bw, x) (err)
+//@   props C13 C02
+//@   requires bw != nil
+//@   ensures [format] err == nil ==> wstream[bw] == appV(old(wstream[bw]), x)
+//@   modifies wstream[bw]
+//@   loop 1 invariant 0 <= ux && appU(wstream[bw], ux) == appU(old(wstream[bw]), zigzag(x))
+//@   loop 1 decreases ux
+
+//@ func EncodeVarint(w, i) (err)
+//@   props C13 C02
+//@   requires w != nil
+//@   ensures [format] err == nil ==> wstream[w] == appV(old(wstream[w]), i)
+//@   modifies wstream[w]
+
+//@ func EncodeUvarint(w, u) (err)
+//@   props C13 C02
+//@   requires w != nil
+//@   ensures [format] err == nil ==> wstream[w] == appU(old(wstream[w]), u)
+//@   modifies wstream[w]
+
+//@ func EncodeBytes(w, bz) (err)
+//@   props C13 C02
+//@   requires w != nil
+//@   ensures [format] err == nil ==> wstream[w] == appB(old(wstream[w]), ord(bz), len(bz))
+//@   modifies wstream[w]
+
+//@ func Encode32BytesHash(w, bz) (err)
+//@   props C13 C02
+//@   requires w != nil
+//@   ensures [format] err == nil && len(bz) == 32 ==> wstream[w] == appB(old(wstream[w]), ord(bz), 32)
+//@   modifies wstream[w]
+
+//@ func EncodeUvarintSize(u) (n)
+//@   props C13
+//@   ensures [size] n == uvlen(u)
+
+//@ func EncodeVarintSize(i) (n)
+//@   props C13
+//@   ensures [size] n == vlen(i)
+
+//@ func EncodeBytesSize(bz) (n)
+//@   props C13
+//@   ensures [size] n == uvlen(len(bz)) + len(bz)
+
+//@ func DecodeUvarint(bz) (u, n, err)
+//@   props C13 C10
+//@   ensures [bounds] 0 <= n && n <= len(bz) && n <= 10
+//@   ensures [ok] (err == nil) == uvDecOk(row(bz), bz.off, len(bz))
+//@   ensures [value] err == nil ==> n > 0 && u == uvDecVal(row(bz), bz.off, len(bz)) && n == uvDecLen(row(bz), bz.off, len(bz))
+
+//@ func DecodeVarint(bz) (i, n, err)
+//@   props C13 C10
+//@   ensures [bounds] 0 <= n && n <= len(bz) && n <= 10
+//@   ensures [ok] (err == nil) == uvDecOk(row(bz), bz.off, len(bz))
+//@   ensures [value] err == nil ==> n > 0 && i == unzigzag(uvDecVal(row(bz), bz.off, len(bz))) && n == uvDecLen(row(bz), bz.off, len(bz))
+
+//@ func DecodeBytes(bz) (out, n, err)
+//@   props C13 C10
+//@   let hn = uvDecLen(row(bz), bz.off, len(bz))
+//@   let hv = uvDecVal(row(bz), bz.off, len(bz))
+//@   ensures [bounds] 0 <= n && n <= len(bz)
+//@   ensures [inside] err == nil ==> out.base == bz.base && out.off == bz.off + hn && len(out) == hv && n == hn + hv && bz.off + n <= bz.off + len(bz)
+//@   ensures [ok] (err == nil) == (uvDecOk(row(bz), bz.off, len(bz)) && hv < 9223372036854775807 && hn + hv <= len(bz))
+//@   ensures [nil-on-error] err != nil ==> out == nil
